@@ -84,6 +84,8 @@ template <typename T> static void from_limbs(T & out, const json & l, std::size_
 // ------------------------------------------------------------------ per-layer configuration conversion
 template <typename B> struct is_backup : std::false_type {};
 template <typename X> struct is_backup<cb::backup<X>> : std::true_type {};
+template <typename B> struct is_affine : std::false_type {};
+template <typename X> struct is_affine<cb::affine<X>> : std::true_type {};
 template <typename B> struct is_array : std::false_type {};
 template <typename V, typename I> struct is_array<cb::array<V, I>> : std::true_type {};
 
@@ -95,6 +97,14 @@ static typename B::configuration_t cfg_from(const json & layer) {
         c[0] = layer["count"].get<std::size_t>();
     } else if constexpr (is_backup<B>::value) {
         from_limbs(c.min, layer["cfg"], 0); from_limbs(c.max, layer["cfg"], sizeof(c.min)); from_limbs(c.default_value, layer["cfg"], 2 * sizeof(c.min));
+    } else if constexpr (is_affine<B>::value) {
+        // the format stores the N x (N+1) matrix row by row; entries are set and read through the matrix's element accessor, not
+        // through its object representation (whose layout is the library's private business)
+        using S = typename B::contravariant_input_t::scalar_t;
+        constexpr std::size_t N = B::contravariant_input_t::dimensions;
+        covfie::array::array<covfie::array::array<S, N + 1>, N> m;
+        for (std::size_t i = 0; i < N; ++i) for (std::size_t j = 0; j <= N; ++j) { S x; from_limbs(x, layer["cfg"], (i * (N + 1) + j) * sizeof(S)); m[i][j] = x; }
+        c = typename B::configuration_t(covfie::algebra::matrix<N, N + 1, S>(m));
     } else {
         from_limbs(c, layer["cfg"]);
     }
@@ -106,6 +116,12 @@ static limbs_t cfg_to(const typename B::configuration_t & c) {
     else if constexpr (is_backup<B>::value) {
         limbs_t a = to_limbs(&c.min, sizeof(c.min)), b = to_limbs(&c.max, sizeof(c.max)), d = to_limbs(&c.default_value, sizeof(c.default_value));
         a.insert(a.end(), b.begin(), b.end()); a.insert(a.end(), d.begin(), d.end()); return a;
+    } else if constexpr (is_affine<B>::value) {
+        using S = typename B::contravariant_input_t::scalar_t;
+        constexpr std::size_t N = B::contravariant_input_t::dimensions;
+        limbs_t a;
+        for (std::size_t i = 0; i < N; ++i) for (std::size_t j = 0; j <= N; ++j) { S x = c(i, j); limbs_t l = to_limbs(&x, sizeof x); a.insert(a.end(), l.begin(), l.end()); }
+        return a;
     } else return to_limbs(&c, sizeof(c));
 }
 
